@@ -215,11 +215,6 @@ theorem mkdirAllIn_safe {good : Target → Prop} {D : Path} {s0 : FS} : ∀ (tod
               exact hcond.2
             exact ih _ _ (Safe_put hS (isPrefix_append D pp c hpp') hnone .dir (fun t h => by cases h))
 
-/-- what a step leaves behind, fatal or not -/
-def Step.state : Step → FS
-  | .ok s => s
-  | .fatal s => s
-
 /-- the link text an entry would create is `good` -/
 def goodEntryG (good : Target → Prop) (e : TarEntry) : Prop := e.typ = 'l' → good (entryTarget e)
 
@@ -234,102 +229,148 @@ theorem goodEntryG_of_goodEntry {e : TarEntry} (h : goodEntry e) : goodEntryG (f
   · have haf : e.linkAbs = false := by cases h' : e.linkAbs <;> simp_all
     simp only [haf, Bool.false_eq_true, if_false]; exact h ht haf
 
+theorem state_ite (b : Bool) (f : FS) (x : PSt) : (if b = true then Step.fatal f else Step.ok x).state = if b = true then f else x.1 := by
+  cases b <;> rfl
+
+theorem linkAt_safe {good : Target → Prop} {D : Path} {s0 : FS} (cfg : Cfg) (fin : Bool) (s1 : FS) (tg0 : List String)
+    (hS1 : SafeG good D s0 s1) (e : TarEntry) (he : goodEntryG good e) (hl : e.typ = 'l') (cleanSegs rel : List String) :
+    SafeG good D s0 (linkAt cfg D fin s1 tg0 e cleanSegs rel).state := by
+  unfold linkAt
+  cases hres : resolveA D s1 D rel.dropLast with
+  | error err => exact hS1
+  | ok pp =>
+    dsimp only
+    by_cases hpp : isPrefix D pp = true
+    · have hput : ∀ (o : Obj), (∀ t, o = .link t → good t) →
+          (s1.get pp != some Obj.dir || tooLong (rel.getLast?.getD "") || (s1.get (pp ++ [rel.getLast?.getD ""])).isSome) = false →
+          SafeG good D s0 (s1.put (pp ++ [rel.getLast?.getD ""]) o) := by
+        intro o ho hc
+        have hnone : s1.get (pp ++ [rel.getLast?.getD ""]) = none := by
+          simp only [Bool.or_eq_false_iff, Option.isSome_eq_false_iff, Option.isNone_iff_eq_none] at hc
+          exact hc.2
+        exact Safe_put hS1 (isPrefix_append D pp _ hpp) hnone o ho
+      simp only [hpp, Bool.not_true, Bool.false_eq_true, if_false]
+      split
+      · exact hS1
+      · split
+        · -- retain
+          split
+          · split <;> exact hS1
+          · rename_i hcond
+            have hc : (s1.get pp != some Obj.dir || tooLong (rel.getLast?.getD "") || (s1.get (pp ++ [rel.getLast?.getD ""])).isSome) = false := by
+              cases hb : (s1.get pp != some Obj.dir || tooLong (rel.getLast?.getD "") || (s1.get (pp ++ [rel.getLast?.getD ""])).isSome) with
+              | false => rfl
+              | true => rw [hb] at hcond; simp at hcond
+            apply hput _ _ hc
+            intro t ht
+            simp only [Obj.link.injEq] at ht
+            subst ht
+            exact he hl
+        · -- non-retain: a regular file with the content read from the target
+          split
+          · split
+            · exact hS1
+            · split <;> exact hS1
+          · split
+            · split <;> exact hS1
+            · rename_i hcond
+              have hc : (s1.get pp != some Obj.dir || tooLong (rel.getLast?.getD "") || (s1.get (pp ++ [rel.getLast?.getD ""])).isSome) = false := by
+                cases hb : (s1.get pp != some Obj.dir || tooLong (rel.getLast?.getD "") || (s1.get (pp ++ [rel.getLast?.getD ""])).isSome) with
+                | false => rfl
+                | true => rw [hb] at hcond; simp at hcond
+              exact hput _ (fun t h => by cases h) hc
+    · have hf : isPrefix D pp = false := by cases h : isPrefix D pp <;> simp_all
+      simp only [hf, Bool.not_false, if_true]
+      exact hS1
+
 /-- every object a step creates is placed below a directory whose evaluated path was tested to be inside `D`
-(regular files, links — since fix dccd4936 —, directory entries, and every level `mkdirAllInside` makes) -/
-theorem unpackStep_safe {good : Target → Prop} {D : Path} {s0 s : FS} (hS : SafeG good D s0 s) (e : TarEntry)
-    (he : goodEntryG good e) : SafeG good D s0 (unpackStep D s e).state := by
+(regular files, links or — in the non-retain mode — the copies written for them, directory entries, and every level
+`mkdirAllInside` makes), for every configuration -/
+theorem stepAt_safe {good : Target → Prop} {D : Path} {s0 : FS} (cfg : Cfg) (fin : Bool) (st : PSt) (hS : SafeG good D s0 st.1)
+    (e : TarEntry) (he : goodEntryG good e) (cleanSegs rel : List String) : SafeG good D s0 (stepAt cfg D fin st e cleanSegs rel).state := by
+  obtain ⟨s, tg⟩ := st
+  unfold stepAt
+  dsimp only
+  have hS1 := mkdirAllIn_safe (good := good) (D := D) (s0 := s0) rel.dropLast [] s hS
+  split
+  · -- regular file
+    cases hmk : mkdirAllIn D s [] rel.dropLast with
+    | fail s1 => rw [hmk] at hS1; exact hS1
+    | outside s1 => rw [hmk] at hS1; exact hS1
+    | ok s1 =>
+      rw [hmk] at hS1
+      have hS1' : SafeG good D s0 s1 := hS1
+      simp only
+      cases hres : resolveA D s1 D rel.dropLast with
+      | error err => exact hS1'
+      | ok pp =>
+        simp only
+        split
+        · exact hS1'
+        · rename_i hpp
+          have hpp' : isPrefix D pp = true := by simpa using hpp
+          split
+          · exact hS1'
+          · cases hg : s1.get (pp ++ [rel.getLast?.getD ""]) with
+            | none => exact Safe_put hS1' (isPrefix_append D pp _ hpp') hg _ (fun t h => by cases h)
+            | some o => exact hS1'
+  · -- link
+    generalize mkdirAllIn D s [] rel.dropLast = mk at hS1
+    split
+    · exact hS1
+    · exact linkAt_safe cfg fin mk.state tg hS1 e he (by assumption) cleanSegs rel
+  · -- directory
+    cases hmk : mkdirAllIn D s [] rel.dropLast with
+    | fail s1 => rw [hmk] at hS1; exact hS1
+    | outside s1 => rw [hmk] at hS1; exact hS1
+    | ok s1 =>
+      rw [hmk] at hS1
+      have hS1' : SafeG good D s0 s1 := hS1
+      simp only
+      cases hres : resolveA D s1 D rel.dropLast with
+      | error err => exact hS1'
+      | ok pp =>
+        simp only
+        split
+        · exact hS1'
+        · rename_i hpp
+          have hpp' : isPrefix D pp = true := by simpa using hpp
+          split
+          · exact hS1'
+          · rename_i hcond
+            have hnone : s1.get (pp ++ [rel.getLast?.getD ""]) = none := by
+              simp only [Bool.or_eq_true, not_or, Bool.not_eq_true, Option.isSome_eq_false_iff, Option.isNone_iff_eq_none] at hcond
+              exact hcond.2
+            exact Safe_put hS1' (isPrefix_append D pp _ hpp') hnone _ (fun t h => by cases h)
+  · exact hS
+
+theorem unpackStep_safe {good : Target → Prop} {D : Path} {s0 : FS} (cfg : Cfg) (fin : Bool) (st : PSt) (hS : SafeG good D s0 st.1)
+    (e : TarEntry) (he : goodEntryG good e) : SafeG good D s0 (unpackStep cfg D fin st e).state := by
   unfold unpackStep
-  simp only
+  dsimp only
   split
   · exact hS
   · split
     · exact hS
-    · generalize List.drop D.length (cleanComps true (D ++ (List.replicate (cleanComps e.nameAbs e.nameComps).1 ".." ++ (cleanComps e.nameAbs e.nameComps).2))).2 = rel
-      have hS1 := mkdirAllIn_safe (good := good) (D := D) (s0 := s0) rel.dropLast [] s hS
-      split
-      · -- regular file
-        cases hmk : mkdirAllIn D s [] rel.dropLast with
-        | fail s1 => rw [hmk] at hS1; exact hS1
-        | outside s1 => rw [hmk] at hS1; exact hS1
-        | ok s1 =>
-          rw [hmk] at hS1
-          have hS1' : SafeG good D s0 s1 := hS1
-          simp only
-          cases hres : resolveA D s1 D rel.dropLast with
-          | error err => exact hS1'
-          | ok pp =>
-            simp only
-            split
-            · exact hS1'
-            · rename_i hpp
-              have hpp' : isPrefix D pp = true := by simpa using hpp
-              split
-              · exact hS1'
-              · cases hg : s1.get (pp ++ [rel.getLast?.getD ""]) with
-                | none => exact Safe_put hS1' (isPrefix_append D pp _ hpp') hg _ (fun t h => by cases h)
-                | some o => exact hS1'
-      · -- link
-        generalize (mkdirAllIn D s [] rel.dropLast).state = s1 at hS1
-        cases hres : resolveA D s1 D rel.dropLast with
-        | error err => exact hS1
-        | ok pp =>
-          simp only
-          split
-          · exact hS1
-          · rename_i hpp
-            have hpp' : isPrefix D pp = true := by simpa using hpp
-            split
-            · exact hS1
-            · split
-              · exact hS1
-              · split
-                · exact hS1
-                · rename_i hcond
-                  have hnone : s1.get (pp ++ [rel.getLast?.getD ""]) = none := by
-                    simp only [Bool.or_eq_true, not_or, Bool.not_eq_true, Option.isSome_eq_false_iff, Option.isNone_iff_eq_none] at hcond
-                    exact hcond.2
-                  apply Safe_put hS1 (isPrefix_append D pp _ hpp') hnone
-                  intro t ht
-                  simp only [Obj.link.injEq] at ht
-                  subst ht
-                  exact he (by assumption)
-      · -- directory
-        cases hmk : mkdirAllIn D s [] rel.dropLast with
-        | fail s1 => rw [hmk] at hS1; exact hS1
-        | outside s1 => rw [hmk] at hS1; exact hS1
-        | ok s1 =>
-          rw [hmk] at hS1
-          have hS1' : SafeG good D s0 s1 := hS1
-          simp only
-          cases hres : resolveA D s1 D rel.dropLast with
-          | error err => exact hS1'
-          | ok pp =>
-            simp only
-            split
-            · exact hS1'
-            · rename_i hpp
-              have hpp' : isPrefix D pp = true := by simpa using hpp
-              split
-              · exact hS1'
-              · rename_i hcond
-                have hnone : s1.get (pp ++ [rel.getLast?.getD ""]) = none := by
-                  simp only [Bool.or_eq_true, not_or, Bool.not_eq_true, Option.isSome_eq_false_iff, Option.isNone_iff_eq_none] at hcond
-                  exact hcond.2
-                exact Safe_put hS1' (isPrefix_append D pp _ hpp') hnone _ (fun t h => by cases h)
+    · split
       · exact hS
+      · split
+        · exact hS
+        · exact stepAt_safe cfg fin st hS e he _ _
 
-theorem unpackPass_safe {good : Target → Prop} {D : Path} {s0 : FS} (es : List TarEntry) (hes : ∀ e ∈ es, goodEntryG good e) :
-    ∀ (st : Step), SafeG good D s0 st.state →
-      SafeG good D s0 (es.foldl (fun st e => match st with | .fatal f => .fatal f | .ok f => unpackStep D f e) st).state := by
+theorem unpackPass_safe {good : Target → Prop} {D : Path} {s0 : FS} (cfg : Cfg) (fin : Bool) (es : List TarEntry)
+    (hes : ∀ e ∈ es, goodEntryG good e) :
+    ∀ (r : Step), SafeG good D s0 r.state →
+      SafeG good D s0 (es.foldl (fun r e => match r with | .fatal f => .fatal f | .ok x => unpackStep cfg D fin x e) r).state := by
   induction es with
-  | nil => intro st h; exact h
+  | nil => intro r h; exact h
   | cons e es ih =>
-    intro st h
+    intro r h
     simp only [List.foldl_cons]
     apply ih (fun x hx => hes x (by simp [hx]))
-    cases st with
+    cases r with
     | fatal f => exact h
-    | ok f => exact unpackStep_safe h e (hes e (by simp))
+    | ok x => exact unpackStep_safe cfg fin x h e (hes e (by simp))
 
 theorem removeObsolete_safe {good : Target → Prop} {D : Path} {s0 : FS} : ∀ (fuel : Nat) (s : FS) (d : Path), isPrefix D d = true →
     SafeG good D s0 s → SafeG good D s0 (removeObsolete D fuel s d) := by
@@ -358,36 +399,46 @@ theorem removeObsolete_safe {good : Target → Prop} {D : Path} {s0 : FS} : ∀ 
             · simpa using hS
           exact key _
 
-theorem unpackPass_safe' {good : Target → Prop} {D : Path} {s0 s : FS} (es : List TarEntry) (hes : ∀ e ∈ es, goodEntryG good e)
-    (h : SafeG good D s0 s) : SafeG good D s0 (unpackPass D s es).state :=
-  unpackPass_safe es hes (Step.ok s) h
+theorem unpackPass_safe' {good : Target → Prop} {D : Path} {s0 : FS} (cfg : Cfg) (fin : Bool) (st : PSt) (es : List TarEntry)
+    (hes : ∀ e ∈ es, goodEntryG good e) (h : SafeG good D s0 st.1) : SafeG good D s0 (unpackPass cfg D fin st es).state :=
+  unpackPass_safe cfg fin es hes (Step.ok st) h
+
+theorem passes_safe {good : Target → Prop} {D : Path} {s0 : FS} (cfg : Cfg) (es : List TarEntry) (hes : ∀ e ∈ es, goodEntryG good e) :
+    ∀ (n k : Nat) (st : PSt), SafeG good D s0 st.1 → SafeG good D s0 (passes cfg D es n k st).state := by
+  intro n
+  induction n with
+  | zero => intro k st h; exact h
+  | succ n ih =>
+    intro k st h
+    unfold passes
+    have p := unpackPass_safe' (D := D) cfg (k + 1 == cfg.maxPass) st es hes h
+    cases hp : unpackPass cfg D (k + 1 == cfg.maxPass) st es with
+    | fatal f => rw [hp] at p; exact p
+    | ok st1 => rw [hp] at p; exact ih (k+1) st1 p
+
+theorem unpackAllC_safeG {good : Target → Prop} {D : Path} {s0 : FS} (cfg : Cfg) (es : List TarEntry) (hes : ∀ e ∈ es, goodEntryG good e)
+    (h0 : SafeG good D s0 s0) : SafeG good D s0 (unpackAllC cfg D s0 es).1 := by
+  unfold unpackAllC
+  have p := passes_safe (D := D) cfg es hes cfg.maxPass 0 (s0, []) h0
+  cases hp : passes cfg D es cfg.maxPass 0 (s0, []) with
+  | fatal f => rw [hp] at p; exact p
+  | ok st => rw [hp] at p; exact removeObsolete_safe 64 st.1 D (isPrefix_refl D) p
+
+theorem unpackAllCut_safeG {good : Target → Prop} {D : Path} {s0 : FS} (cfg : Cfg) (es : List TarEntry) (k : Nat)
+    (hes : ∀ e ∈ es, goodEntryG good e) (h0 : SafeG good D s0 s0) : SafeG good D s0 (unpackAllCut cfg D s0 es k).1 := by
+  unfold unpackAllCut
+  split
+  · exact removeObsolete_safe 64 s0 D (isPrefix_refl D) h0
+  · exact unpackPass_safe' cfg _ (s0, []) (es.take k) (fun e he => hes e (List.mem_of_mem_take he)) h0
 
 theorem unpackAll_safeG {good : Target → Prop} {D : Path} {s0 : FS} (es : List TarEntry) (hes : ∀ e ∈ es, goodEntryG good e)
-    (h0 : SafeG good D s0 s0) : SafeG good D s0 (unpackAll D s0 es).1 := by
-  unfold unpackAll
-  have p1 := unpackPass_safe' (D := D) es hes h0
-  cases h1 : unpackPass D s0 es with
-  | fatal f => rw [h1] at p1; exact p1
-  | ok s1 =>
-    rw [h1] at p1
-    simp only
-    have p1' : SafeG good D s0 s1 := p1
-    have p2 := unpackPass_safe' (D := D) es hes p1'
-    cases h2 : unpackPass D s1 es with
-    | fatal f => rw [h2] at p2; exact p2
-    | ok s2 =>
-      rw [h2] at p2
-      simp only
-      have p2' : SafeG good D s0 s2 := p2
-      have p3 := unpackPass_safe' (D := D) es hes p2'
-      cases h3 : unpackPass D s2 es with
-      | fatal f => rw [h3] at p3; exact p3
-      | ok s3 =>
-        rw [h3] at p3
-        exact removeObsolete_safe 64 s3 D (isPrefix_refl D) p3
+    (h0 : SafeG good D s0 s0) : SafeG good D s0 (unpackAll D s0 es).1 := unpackAllC_safeG Cfg.dflt es hes h0
+
+theorem unpackAllC_safe {D : Path} {s0 : FS} (cfg : Cfg) (es : List TarEntry) (hes : ∀ e ∈ es, goodEntry e)
+    (h0 : Safe D s0 s0) : Safe D s0 (unpackAllC cfg D s0 es).1 :=
+  unpackAllC_safeG cfg es (fun e he => goodEntryG_of_goodEntry (hes e he)) h0
 
 theorem unpackAll_safe {D : Path} {s0 : FS} (es : List TarEntry) (hes : ∀ e ∈ es, goodEntry e)
-    (h0 : Safe D s0 s0) : Safe D s0 (unpackAll D s0 es).1 :=
-  unpackAll_safeG es (fun e he => goodEntryG_of_goodEntry (hes e he)) h0
+    (h0 : Safe D s0 s0) : Safe D s0 (unpackAll D s0 es).1 := unpackAllC_safe Cfg.dflt es hes h0
 
 end Scalibr.Unpack
